@@ -187,3 +187,6 @@ def streams(tier, rng):
     yield {'name': 'exhaustive-lines<=%d' % L, 'op': 'C07', 'cases': gen822.exhaustive(L), 'exhaustive': True}
     yield {'name': 'name-clash-family', 'op': 'C07', 'cases': clash_family(3 if tier == 'quick' else 4), 'exhaustive': True}
     yield {'name': 'malformed', 'op': 'C07', 'cases': malformed(rng, 4000 if tier == 'quick' else 60000)}
+    import gendep5
+    # well-formed machine-readable files too: the strict validity path is only taken by them
+    yield {'name': 'dep5-documents', 'op': 'C07', 'cases': (gendep5.doc(rng)[2] for _ in range(800 if tier == 'quick' else 15000))}
